@@ -74,6 +74,53 @@ def run_real(G, F, mx, factor, trunc):
     return {"out": [pos[id(i)] for i in out], "kept": [pos[id(i)] for i in nbc.individuals], "sorted": [pos[id(i)] for i in srt], "distances": [float(d) for d in nbc.distances]}
 
 
+def generator_check(rng, n):
+    """NBC_Generator / NBCGeneratorWithLocalMethod on a tree with one active non-leaf deme: the candidates offered for it and the exported mean
+    distance must be those of NearestBetterClustering(deme.current_population, distance_factor, truncation_factor) called directly"""
+    from pyhms.core.individual import Individual
+    from pyhms.core.problem import FunctionProblem
+    from pyhms.sprout.sprout_generators import NBC_Generator, NBCGeneratorWithLocalMethod
+    from pyhms.utils.clusterization import NearestBetterClustering
+    from .filters_direct import FakeDeme, FakeTree
+    viol, done = [], 0
+    for ci in range(n):
+        G, F, kind = gen_population(rng, False)
+        if len(G) < 2:
+            continue
+        mx = rng.random() < 0.5
+        F = list(F)
+        worst = float("-inf") if mx else float("inf")
+        if rng.random() < 0.5:       # penalised / budget-exhausted individuals: the direction's worst infinity (several, tied)
+            for j in rng.sample(range(len(F)), rng.randint(1, max(1, len(F) // 2))):
+                F[j] = worst
+        factor, trunc = rng.choice([0.5, 1.0, 2.0, 3.0]), rng.choice([1.0, 1.0, 0.7, 0.5])
+        if int(len(G) * trunc) < 1:
+            continue
+        prob = FunctionProblem(lambda x: float("nan"), np.array([[-10.0, 10.0]] * len(G[0])), mx)
+        inds = [Individual(np.array(g, dtype=float), prob, f) for g, f in zip(G, F)]
+        pos = {id(i): k for k, i in enumerate(inds)}
+        root = FakeDeme("root", 0, True, np.mean([i.genome for i in inds], axis=0), list(inds))
+        H = rng.choice([2, 3])
+        tree = FakeTree([[root]] + [[] for _ in range(H - 1)])
+        gen = NBC_Generator(factor, trunc) if (H == 2 or rng.random() < 0.5) else NBCGeneratorWithLocalMethod(factor, trunc)
+        try:
+            out = gen(tree)
+            ref = NearestBetterClustering(list(inds), factor, trunc)
+            want = [pos[id(i)] for i in ref.cluster()]
+            wmean = float(np.mean(ref.distances)) if ref.distances else None
+        except Exception as ex:
+            viol.append({"key": "C15/generator-raised", "what": f"{type(gen).__name__} raised {type(ex).__name__}: {ex}", "replay_fn": "nbc-generator"})
+            continue
+        done += 1
+        got = [pos.get(id(i), -1) for i in out[root].individuals] if root in out else None
+        gmean = out[root].features.nbc_mean_distance if root in out else None
+        gmean = None if gmean is None or (isinstance(gmean, float) and math.isnan(gmean)) else float(gmean)
+        if got != want or (wmean is not None and gmean is not None and gmean != wmean):
+            viol.append({"key": "C15/generator-population", "what": f"{type(gen).__name__}({factor}, {trunc}) offers individuals {got} (mean distance {gmean}) for a deme whose current population "
+                         f"clusters to {want} (mean distance {wmean}); fitness {F}, maximize={mx}", "replay_fn": "nbc-generator"})
+    return viol[:4], done
+
+
 def definition(G, F, mx, factor, kept, sorted_ids):
     """brute force from the definition; returns (set of ids, knife_edge flag)"""
     g = (lambda f: -f) if mx else (lambda f: f)
@@ -160,6 +207,10 @@ def run_direct(ctx, n, tag):
                 r4 = run_real([[sc * (x + s) for x, s in zip(gg, sh)] for gg in G], F, mx, factor, trunc)
                 if set(r4["out"]) != set(r["out"]):
                     viol.append({"key": "C15/scale-translate", "what": f"NBC changed under translation {sh} and scaling {sc}: {sorted(r['out'])} vs {sorted(r4['out'])}", "case": case, "replay_fn": "nbc"})
+    # --- the generators cluster exactly the deme's CURRENT population (every individual of it, whatever its fitness) with the configured factors
+    gv, gdone = generator_check(rng, max(20, n // 10))
+    viol += gv
+    dist["generator-vs-direct"] = gdone
     model, err = run_cases(tag, HEADER, terms)
     validated = 0
     if model is None:
